@@ -51,7 +51,7 @@ pub fn schedule_part(run: &Run) -> SchedOut {
         };
         let reference = khovanov::<Z>(d, &z(h), &z(t), reduced.then_some(be)).total;
         let key = format!("khsched:{name}:{}:h={h},t={t},red={}", code_string(d), reduced as u8);
-        let cfg = Config { workers: 2, choose_items: false, max_decisions: 200_000, min_items: 2 };
+        let cfg = Config { workers: 2, choose_items: false, max_decisions: 200_000, min_items: 2, count_task_switches: false };
         let bound = if th && d.n <= 2 { 2 } else { 1 };
         let mut outcomes = BTreeSet::new();
         let st = sched::explore(
